@@ -107,6 +107,16 @@ def _assemble(c, **over):
     return assemble.assemble(problem, kvs, bfuns=bf, args=args, **opts)
 
 
+def _assemble_cls(c, symmetric=False, format='csr', layout='blocked'):
+    """the same matrix through the reusable Assembler object"""
+    from pyiga import assemble
+    problem, kw, nsp, sym = _form(c['form'])
+    args = dict(kw)
+    bf = args.pop('bfuns', None)
+    args['geo'] = _geo(c.get('geo', 'bump'), len(c['kvs']))
+    return assemble.Assembler(problem, _spaces(c), bfuns=bf, args=args, symmetric=symmetric).assemble(format=format, layout=layout)
+
+
 def _close(A, B, what):
     A, B = np.asarray(A), np.asarray(B)
     assert A.shape == B.shape, '%s: shape %r vs %r' % (what, A.shape, B.shape)
@@ -159,6 +169,10 @@ def chk_formats(c):
                 else:
                     E = ref
                 _close(D, E, 'symmetric=%s format=%s layout=%s' % (symmetric, fmt, layout))
+                if fmt in ('csr', 'bsr', 'mlb'):
+                    # a reusable Assembler object honours format and layout like the one-shot assemble()
+                    D2 = _dense(_assemble_cls(c, symmetric=symmetric, format=fmt, layout=layout))
+                    assert D2.shape == D.shape and np.array_equal(D2, D), 'Assembler(...).assemble(format=%s, layout=%s, symmetric=%s) differs from assemble(...) with the same options' % (fmt, layout, symmetric)
 
 
 def chk_threads(c):
